@@ -176,7 +176,7 @@ def _mentions(term, defs):
     return False
 
 
-def validate_path(env, entry, cfg, trace, vals):
+def validate_path(env, entry, cfg, trace, vals, compare_result=True):
     """run the harness concretely on a model of the path; the concrete run must reproduce the path's outcome,
     hints, constraints and result values.  returns (ok: bool, message, inputs)"""
     st, m = H.solve(trace.path.facts(), [], 20000)
@@ -209,7 +209,7 @@ def validate_path(env, entry, cfg, trace, vals):
             cb = {k: v % P for k, v in b.items()}
             if {k: v for k, v in ca.items() if v} != {k: v for k, v in cb.items() if v}:
                 return False, "constraint %d differs on %s" % (i, inputs), inputs
-    if trace.path.ok:
+    if trace.path.ok and compare_result:
         rs = [o for o in flat(trace.result)]
         rc = [o for o in flat(out["result"])]
         if len(rs) != len(rc):
